@@ -389,9 +389,13 @@ def unbounded_proofs(chk):
             r = tlc.require_ok(tlc.run('SortCacheRef', cfg=cfg, timeout=900), cfg)
             chk.add_tlc(r, 'SortCacheRef', cfg)
     from concurrent.futures import ThreadPoolExecutor
-    jobs = [('CacheViewInt', [('Variant = "fixed"', 'Variant = "orig"')]),
+    for S in (1, 5):
+        r = tlc.require_ok(tlc.run('DictsSpillRef', cfg='DictsSpillRef_%d' % S, timeout=900), 'DictsSpillRef_%d' % S)
+        chk.add_tlc(r, 'DictsSpillRef', 'DictsSpillRef_%d' % S)
+    jobs = [('DictsSpillInt', [("/\\ buffered' = Min(Sample, NRows)", "/\\ buffered' = 0")]),       # sampled rows not chained back
+            ('CacheViewInt', [('Variant = "fixed"', 'Variant = "orig"')]),
             ('SortCacheInt', [('CacheFlag \\in BOOLEAN /\\ Variant = "fixed"', 'CacheFlag \\in BOOLEAN /\\ Variant = "orig"')])]
-    with ThreadPoolExecutor(max_workers=2) as ex:
+    with ThreadPoolExecutor(max_workers=3) as ex:
         list(ex.map(lambda j: apalache.inductive(chk, j[0], negative=j[1]), jobs))
 
 
